@@ -16,6 +16,64 @@ def fmt(gs):
     return ' && '.join(('' if p else '!') + a for a, p in gs)
 
 
+def used_parity_covers_skippable_rule(P, rep, rid):
+    """the short-parity interlock compares the size of the parity files with `the parity in use` (parity_used_size).  In use means:
+    sync will rely on what is stored there WITHOUT rewriting it.  That is the case for every synced block (BLK) -- and for a CHG
+    block that carries a real past hash: when the data read still matches that hash (a file that was only touched, or renamed where
+    inodes are not trusted) sync keeps the parity and records the block as synced.  A predicate that counts BLK only lets `touch` on
+    the file at the tail of the array disarm the interlock: the lost stripes are re-extended with zeros, never written, and
+    recorded as synced.  parity_used_size is interpreted (E10) for one disk with one block over state x past-hash kind."""
+    from .. import region as RG
+    from .C06 import blk_value
+    rep.rule(rid, 'parity_used_size counts a position as in use iff its block is BLK, or CHG with a real (unique) past hash -- the blocks whose parity sync may keep without rewriting', 7)
+    f = P.fn('parity_used_size')
+    rep.analysed(f)
+    st = dict(blk_value(P))
+    rd = P.fn('state_read_content')
+    dele = [rd.const_of(c.ops[1]) for c in rd.calls('block_state_set') if rd.const_of(c.ops[1]) not in st.values()]
+    if len(set(dele)) != 1:
+        raise AnalysisBroken('DELETED state constant not recovered')
+    st['DELETED'] = dele[0]; st['EMPTY'] = None
+    nl = P.distructs.get('tommy_node_struct'); bl = P.distructs.get('snapraid_block'); sl = P.distructs.get('snapraid_state')
+    if not nl or not bl or not sl:
+        raise AnalysisBroken('layouts not found')
+    no = {m['name']: m['off'] for m in nl['members']}; bo = {m['name']: m['off'] for m in bl['members']}; so = {m['name']: m['off'] for m in sl['members']}
+    for name in ('EMPTY', 'BLK', 'CHG', 'REP', 'DELETED'):
+        for kind in (('REAL', 'ZERO', 'INVALID') if name == 'CHG' else ('REAL',)):
+            bp = 0
+            R = RG.Region(P, extern=None)
+            def ext(ins, args):
+                c = ins.callee
+                if c == 'fs_size':
+                    return (1,)
+                if c in ('fs_par2block_find', 'fs_par2block_get', 'fs_par2block_maybe'):
+                    return (blk[0],)
+                return None
+            R.extern = ext
+            R.discover = []
+            blk = [0]
+            if st[name] is not None:
+                b_ = RG.P_(('obj', 'blk'), 0)
+                R.mem[(b_.reg, bo['state'])] = st[name]
+                byte = {'ZERO': 0xFF, 'INVALID': 0x00}.get(kind)
+                for k_ in range(16):
+                    R.mem[(b_.reg, bo['hash'] + k_)] = byte if byte is not None else (0x31 + 3 * k_) & 0xff
+                blk[0] = b_
+            R.mem[(('glob', 'BLOCK_HASH_SIZE'), 0)] = 16
+            sp = RG.P_(('obj', 'state'), 0); n0 = RG.P_(('node', 0), 0)
+            R.zero_regions.add(sp.reg)
+            R.mem[(n0.reg, no['data'])] = RG.P_(('disk', 0), 0); R.mem[(n0.reg, no['next'])] = 0
+            R.mem[(sp.reg, so['disklist'])] = n0
+            try:
+                got = R.run(f, 0, [sp])
+            except RG.Unsupported as e:
+                raise AnalysisBroken('cannot interpret parity_used_size: %s' % e)
+            want = 1 if (name == 'BLK' or (name == 'CHG' and kind == 'REAL')) else 0
+            rep.check(got == want, rid, 'last block %s%s' % (name, ' with past hash %s' % kind if name == 'CHG' else ''), f.file,
+                      'in use: %s' % bool(got) if got == want else 'in use: %s, expected %s -- %s' % (bool(got), bool(want), 'sync keeps the parity of a CHG block whose data still matches its real past hash (a touched or renamed file): the position must count as in use, or a parity file that lost its tail is accepted after `touch`, re-extended with zeros and the blocks recorded as synced' if want else 'only blocks whose parity sync may keep can hold the interlock'),
+                      function='parity_used_size', construct='used parity predicate')
+
+
 def run(ctx, rep):
     P = ctx.prog
     rep.explanation = ('Each interlock is located as an exit(EXIT_FAILURE) whose control-dependence guard (conjunction of dominating branch outcomes) contains exactly its documented override option and the documented '
@@ -220,6 +278,7 @@ def run(ctx, rep):
                           function='parity_size', construct='parity size counts recorded bytes')
 
     short_parity_interlock_rule(P, rep, 'R-C14-1p')
+    used_parity_covers_skippable_rule(P, rep, 'R-C14-1u')
     empty_disk_interlock_rule(P, rep, 'R-C14-1e')
     interlock_counter_rules(P, rep, 'R-C14-1l', 'R-C14-1c')
     # the is_diff flag turns the zero-size refusal into a report (diff must not abort): it has to travel unchanged from the command
